@@ -26,8 +26,14 @@ const contactAssetsJSON = `{
   {"uuid": "d66a7823-eada-40e5-9a3a-57239d4690bf", "key": "gender", "name": "Gender", "type": "text"},
   {"uuid": "f1b5aea6-6586-41c7-9020-1a6326cc6565", "key": "age", "name": "Age", "type": "number"},
   {"uuid": "6c86d5ab-3fd9-4a5c-a5b6-48168b016747", "key": "joined", "name": "Joined", "type": "datetime"},
-  {"uuid": "c88d2640-d124-438a-b666-5ec53a353dcd", "key": "nick", "name": "Nick", "type": "text"}
+  {"uuid": "c88d2640-d124-438a-b666-5ec53a353dcd", "key": "nick", "name": "Nick", "type": "text"},
+  {"uuid": "1c2f7a34-6d2b-4c18-9a3e-5b0c2d7e1a01", "key": "state", "name": "State", "type": "state"},
+  {"uuid": "1c2f7a34-6d2b-4c18-9a3e-5b0c2d7e1a02", "key": "district", "name": "District", "type": "district"},
+  {"uuid": "1c2f7a34-6d2b-4c18-9a3e-5b0c2d7e1a03", "key": "ward", "name": "Ward", "type": "ward"}
  ],
+ "locations": [{"name": "Rwanda", "aliases": ["Ruanda"], "children": [
+   {"name": "Kigali City", "aliases": ["Kigali"], "children": [{"name": "Gasabo", "children": [{"name": "Gisozi"}, {"name": "Ndera"}]}, {"name": "Nyarugenge", "children": []}]},
+   {"name": "Eastern Province", "children": [{"name": "Rwamagana", "children": [{"name": "Bicumbi"}]}]}]}],
  "groups": [
   {"uuid": "b7cf0d83-f1c9-411c-96fd-c511a4cfa86d", "name": "Testers"},
   {"uuid": "4f1f98fc-27a7-4a69-bbdb-24744ba739a9", "name": "Males"},
@@ -41,7 +47,12 @@ const contactAssetsJSON = `{
   {"uuid": "a6ddac3c-3a7e-4a96-8e5b-c0c3a1e7e7a6", "name": "Q Never Seen", "query": "last_seen_on = \"\""},
   {"uuid": "b7ddac3c-3a7e-4a96-8e5b-c0c3a1e7e7a7", "name": "Q Tickets", "query": "tickets > 0"},
   {"uuid": "c8ddac3c-3a7e-4a96-8e5b-c0c3a1e7e7a8", "name": "Q Old", "query": "created_on < 2020-01-01 OR joined > 2021-06-01"},
-  {"uuid": "d9ddac3c-3a7e-4a96-8e5b-c0c3a1e7e7a9", "name": "Q No Name Or Nick", "query": "name = \"\" OR nick = x"}
+  {"uuid": "d9ddac3c-3a7e-4a96-8e5b-c0c3a1e7e7a9", "name": "Q No Name Or Nick", "query": "name = \"\" OR nick = x"},
+  {"uuid": "e1ddac3c-3a7e-4a96-8e5b-c0c3a1e7e7b1", "name": "Q State Kigali", "query": "state = \"Kigali City\""},
+  {"uuid": "e2ddac3c-3a7e-4a96-8e5b-c0c3a1e7e7b2", "name": "Q State Gasabo", "query": "state = Gasabo"},
+  {"uuid": "e3ddac3c-3a7e-4a96-8e5b-c0c3a1e7e7b3", "name": "Q District Gasabo", "query": "district = Gasabo"},
+  {"uuid": "e4ddac3c-3a7e-4a96-8e5b-c0c3a1e7e7b4", "name": "Q District Gisozi", "query": "district = Gisozi"},
+  {"uuid": "e5ddac3c-3a7e-4a96-8e5b-c0c3a1e7e7b5", "name": "Q Ward Gisozi", "query": "ward = Gisozi"}
  ],
  "topics": [{"uuid": "0d9a2c56-6fc2-4f27-93c5-a6322e26b740", "name": "General"}, {"uuid": "472a7a73-96cb-4736-b567-056d987cc5b4", "name": "Weather"}],
  "users": [{"email": "bob@nyaruka.com", "name": "Bob"}],
@@ -52,7 +63,24 @@ const contactAssetsJSON = `{
 var staticGroupUUIDs = []string{"b7cf0d83-f1c9-411c-96fd-c511a4cfa86d", "4f1f98fc-27a7-4a69-bbdb-24744ba739a9", "0ec97956-c451-48a0-a180-1ce766623e31"}
 var queryGroupUUIDs = []string{"a5c50365-11d6-412b-b48f-53783b2a7803", "b1ddac3c-3a7e-4a96-8e5b-c0c3a1e7e7a1", "c2ddac3c-3a7e-4a96-8e5b-c0c3a1e7e7a2",
 	"d3ddac3c-3a7e-4a96-8e5b-c0c3a1e7e7a3", "e4ddac3c-3a7e-4a96-8e5b-c0c3a1e7e7a4", "f5ddac3c-3a7e-4a96-8e5b-c0c3a1e7e7a5", "a6ddac3c-3a7e-4a96-8e5b-c0c3a1e7e7a6",
-	"b7ddac3c-3a7e-4a96-8e5b-c0c3a1e7e7a7", "c8ddac3c-3a7e-4a96-8e5b-c0c3a1e7e7a8", "d9ddac3c-3a7e-4a96-8e5b-c0c3a1e7e7a9"}
+	"b7ddac3c-3a7e-4a96-8e5b-c0c3a1e7e7a7", "c8ddac3c-3a7e-4a96-8e5b-c0c3a1e7e7a8", "d9ddac3c-3a7e-4a96-8e5b-c0c3a1e7e7a9",
+	"e1ddac3c-3a7e-4a96-8e5b-c0c3a1e7e7b1", "e2ddac3c-3a7e-4a96-8e5b-c0c3a1e7e7b2", "e3ddac3c-3a7e-4a96-8e5b-c0c3a1e7e7b3", "e4ddac3c-3a7e-4a96-8e5b-c0c3a1e7e7b4", "e5ddac3c-3a7e-4a96-8e5b-c0c3a1e7e7b5"}
+
+// location-typed fields are searched by the name of the location at the field's own level, whatever deeper level the stored
+// value was resolved to: (group, field, level, name) - the statement's oracle for these groups, independent of QueryValue
+var locationGroups = []struct{ uuid, field, level, name string }{
+	{"e1ddac3c-3a7e-4a96-8e5b-c0c3a1e7e7b1", "state", "state", "Kigali City"}, {"e2ddac3c-3a7e-4a96-8e5b-c0c3a1e7e7b2", "state", "state", "Gasabo"},
+	{"e3ddac3c-3a7e-4a96-8e5b-c0c3a1e7e7b3", "district", "district", "Gasabo"}, {"e4ddac3c-3a7e-4a96-8e5b-c0c3a1e7e7b4", "district", "district", "Gisozi"},
+	{"e5ddac3c-3a7e-4a96-8e5b-c0c3a1e7e7b5", "ward", "ward", "Gisozi"}}
+
+// stored values of location fields, resolved at the field's level or deeper
+var genLocationValues = []map[string]any{
+	{"text": "Kigali City", "state": "Rwanda > Kigali City"},
+	{"text": "Rwanda > Kigali City > Gasabo", "state": "Rwanda > Kigali City", "district": "Rwanda > Kigali City > Gasabo"},
+	{"text": "Rwanda > Kigali City > Gasabo > Gisozi", "state": "Rwanda > Kigali City", "district": "Rwanda > Kigali City > Gasabo", "ward": "Rwanda > Kigali City > Gasabo > Gisozi"},
+	{"text": "Rwanda > Eastern Province > Rwamagana", "state": "Rwanda > Eastern Province", "district": "Rwanda > Eastern Province > Rwamagana"},
+	{"text": "Nowhere"},
+}
 
 func contactAssets(env envs.Environment, flowsJSON string) (flows.SessionAssets, error) {
 	if flowsJSON == "" {
@@ -65,12 +93,15 @@ func contactAssets(env envs.Environment, flowsJSON string) (flows.SessionAssets,
 	return engine.NewSessionAssets(env, src, nil)
 }
 
-var genURNs = []string{"tel:+12065550100", "tel:+12065550199", "tel:+250788123123", "twitter:bobby", "twitter:ann", "mailto:a@b.com", "tel:+12065550100?channel=57f1078f-88aa-46f4-a59a-948a5739c03d"}
+// URNs as a caller may have stored them: plain, with a channel affinity, with an affinity for a channel the assets no longer
+// have, with other parameters and with parameters in another order than the URN library writes them
+var genURNs = []string{"tel:+12065550100", "tel:+12065550199", "tel:+250788123123", "twitter:bobby", "twitter:ann", "mailto:a@b.com", "tel:+12065550100?channel=57f1078f-88aa-46f4-a59a-948a5739c03d",
+	"tel:+12065550199?channel=0a0a0a0a-aaaa-4bbb-8ccc-000000000001", "tel:+250788123123?id=3&channel=3a05eaf5-cb1b-4246-bef1-f277419c83a7", "twitter:ann?id=7", "tel:+12065550100?id=2&channel=57f1078f-88aa-46f4-a59a-948a5739c03d"}
 
 // a random contact as JSON; group membership is deliberately arbitrary (query groups may be wrong)
 func genContactJSON(r *Rng, correctGroups bool) []byte {
 	c := map[string]any{"uuid": "5d76d86b-3bb9-4d5a-b822-c9d86f5d8e4f", "id": 1234, "name": Pick(r, []string{"", "Bob", "Ann Lee", "bob smith", "Élodie", "Bob", "Ann Lee", "...", "-", "?!", " ", "$", "😀 x"}),
-		"status": Pick(r, []string{"active", "active", "active", "blocked", "stopped", "archived"}), "created_on": Pick(r, []string{"2018-06-20T11:40:30Z", "2023-01-02T03:04:05Z"})}
+		"status": Pick(r, []string{"active", "active", "active", "blocked", "stopped", "archived"}), "created_on": Pick(r, []string{"2018-06-20T11:40:30Z", "2023-01-02T03:04:05Z", "2019-12-31T22:00:00Z"})}
 	if l := Pick(r, []string{"", "eng", "fra", "spa"}); l != "" {
 		c["language"] = l
 	}
@@ -99,14 +130,21 @@ func genContactJSON(r *Rng, correctGroups bool) []byte {
 		fields["gender"] = map[string]any{"text": Pick(r, []string{"male", "Male", "female", "x"})}
 	}
 	if r.Chance(50) {
-		n := Pick(r, []string{"17", "18", "40.5"})
+		n := Pick(r, []string{"17", "18", "40.5", "37.50", "18.0"})
 		fields["age"] = map[string]any{"text": n, "number": json.Number(n)}
 	}
 	if r.Chance(30) {
-		fields["joined"] = map[string]any{"text": "2022-01-01T00:00:00Z", "datetime": "2022-01-01T00:00:00Z"}
+		// in UTC, or as a caller in another zone stored it
+		j := Pick(r, []string{"2022-01-01T00:00:00Z", "2022-01-01T00:00:00Z", "2018-05-01T10:30:00.000000-05:00", "2021-07-01T23:30:00+02:00"})
+		fields["joined"] = map[string]any{"text": j, "datetime": j}
 	}
 	if r.Chance(30) {
 		fields["nick"] = map[string]any{"text": Pick(r, []string{"x", "bobby"})}
+	}
+	for _, k := range []string{"state", "district", "ward"} {
+		if r.Chance(20) {
+			fields[k] = Pick(r, genLocationValues)
+		}
 	}
 	if len(fields) > 0 {
 		c["fields"] = fields
@@ -286,6 +324,24 @@ func groupInvFailures(sa flows.SessionAssets, env envs.Environment, c *flows.Con
 			want := g.CheckQueryBasedMembership(env, c)
 			if in != want {
 				out = append(out, fmt.Sprintf("query group %q: member=%v, query says %v", g.Name(), in, want))
+			}
+			for _, lg := range locationGroups {
+				if string(g.UUID()) != lg.uuid {
+					continue
+				}
+				// the name of the stored location at the field's own level
+				name := ""
+				if fv := c.Fields()[lg.field]; fv != nil && fv.Value != nil {
+					path := map[string]envs.LocationPath{"state": fv.State, "district": fv.District, "ward": fv.Ward}[lg.level]
+					if path != "" {
+						parts := strings.Split(string(path), ">")
+						name = strings.TrimSpace(parts[len(parts)-1])
+					}
+				}
+				wantLoc := c.Status() == flows.ContactStatusActive && strings.EqualFold(name, lg.name)
+				if in != wantLoc {
+					out = append(out, fmt.Sprintf("query group %q: member=%v, but the %s of field %s is %q", g.Name(), in, lg.level, lg.field, name))
+				}
 			}
 		} else if in && c.Status() != flows.ContactStatusActive {
 			out = append(out, fmt.Sprintf("non-active contact (%s) is still in static group %q", c.Status(), g.Name()))
